@@ -221,6 +221,7 @@ def _c05_run(tier, seed, out, drv):
     s_text.corpus_suite(60 if q else 1100, seed, out, drv)
     s_text.lex_suite('C05', seed, 1500 if q else 30000, out, drv, exhaustive_len=0 if q else 5)
     s_text.cmake_trace_suite(seed, 150 if q else 4000, out, drv)
+    s_text.big_file_suite(seed, 6 if q else 60, out, drv)
 
 
 def _c05_search(tier, seed, out, drv, dis):
